@@ -978,6 +978,36 @@ def contents_pass(ctx):
     return (not fails and not crashed), st, texts
 
 
+def uninit_ovf_pass(ctx):
+    """For c15.py: `new_uninit_slice` / `from_header_and_uninit_slice` with lengths whose byte size overflows or comes
+    close to isize::MAX — the caller chooses the length, so "every slice length" includes the impossible ones: they must
+    be refused with a panic (or fail in the allocator), never yield a handle over a short block.  One child process per
+    case, dev profile and release semantics (overflow checks off).  Returns (ok, stats, failures)."""
+    drv = common.lean_exe("drv_layout")
+    variants = ["dbg", "rel-o0"]
+    bins = build_variants(ctx, variants)
+    failures, stats, okall = [], {"cases": 0, "configs": variants}, True
+    for v in variants:
+        sh = Shapes(bins[v])
+        rng = random.Random(_seed_for(ctx, v) + 15)
+        cases = [c for c in ovf_cases(sh, rng, "thorough") if c.meta.get("ctor") in ("uninit", "slice_uninit")]
+        if not ctx.thorough():
+            cases = rng.sample(cases, min(len(cases), 60))
+        r = execute_children(bins[v], drv, sh, cases, config=v + "/child[uninit]")
+        stats["cases"] += len(cases)
+        for i, fl in r.failures[:4]:
+            failures.append({"found_input": True, "text": "configuration %s\n" % v + describe(r, i, sh) + "\nproperty violated: " + fl["what"]})
+        for i, mm in r.mismatch[:4]:
+            accepted = r.impl[i].get("st") in ("ok", "wrote") and (r.model[i].get("st") or "").startswith("panic")
+            failures.append({"found_input": accepted, "text": "configuration %s\n" % v + describe(r, i, sh) +
+                             ("\nproperty violated: the constructor returned a handle for a length whose size computation overflows" if accepted else
+                              "\nmodel/impl disagree on: " + str(mm))})
+        okall = okall and not r.failures and not r.mismatch
+        if cases:
+            stats.setdefault("samples", []).append({"case": cases[0].line, "impl": str(r.impl_raw[0])[:200]})
+    return okall, stats, failures
+
+
 def thin_pass(ctx):
     """For c10.py: ThinArc over the shape matrix (over-aligned / byte-sized / zero-sized headers and elements,
     every constructor incl. `into_thin` of a fat Arc, with a correct and with a disagreeing recorded length),
